@@ -124,7 +124,7 @@ pub fn run(o: &Opts) {
         case(&mut sink, idx, "corpus", &steps, &nonce);
         idx += 1;
     }
-    let n = if o.thorough { 80_000 } else { 1_200 } * o.scale;
+    let n = if o.thorough { 40_000 } else { 1_200 } * o.scale;
     for _ in 0..n {
         if sink.wants(idx) {
             let mut r = Rng::for_case(o.seed, "C03", idx);
